@@ -25,6 +25,7 @@ run h09_from_disk_bfs C06 C13 C18
 run h10_dup_check_counter C19 C02 C12
 run h11_snapshot_sort_key C05 C07
 run h12_fstrings C01 C02 C05
+run h13_toposort_lifo C20
 run h01_block_size_4096 C01 C06
 # regenerate the tables from the real repository again
 (cd "$verif" && /venv/bin/python harness/gen_tables.py >/dev/null && cd lean && lake build >/dev/null 2>&1)
